@@ -224,4 +224,21 @@ theorem array_add_num_unmatched_counterexample :
   have := h.same ⟨101, 11, 1⟩ (by simp) ⟨102, 12, 1⟩ (by simp) (by decide +kernel)
   simp at this
 
+/-! ### the caption of an unknown unit (`ObtainQuantity('<unknown>', None, 'furlongs')`) -/
+
+/-- a plain number never strips the only name an unknown unit has: in the eight forms that keep x's quantity the
+result of `Scalar._DoOperation` carries x's caption (it is x's quantity object itself) -/
+theorem scalar_num_keeps_caption (cap : Sym) (q : Quantity) (v : Rat) (np : Bool) (k : Rat) (op : Op) :
+    scalarNumCaption cap (.scalar q v) (.num np k) op = cap ∧
+    (isDivision op = false → scalarNumCaption cap (.num np k) (.scalar q v) op = cap) := by
+  constructor
+  · cases op <;> rfl
+  · intro h
+    cases op <;> first | rfl | simp [isDivision] at h
+
+/-- `k / x`, `k // x` build the reciprocal quantity from the dict: no caption -/
+theorem num_div_scalar_caption (cap : Sym) (q : Quantity) (v : Rat) (np : Bool) (k : Rat) (op : Op)
+    (h : isDivision op = true) : scalarNumCaption cap (.num np k) (.scalar q v) op = 0 := by
+  cases op <;> first | rfl | simp [isDivision] at h
+
 end Barril.Ops
